@@ -283,18 +283,30 @@ class _Doc:
         return self.source.splitlines(True)
 
 
-def _lint(uod, text, use_pylsp_document: bool):
+def _lint(uod, text, use_pylsp_document: bool, prior=None):
+    """lint `text`. With `prior` (a text) the same editor session - same engine, same uod information (the per-engine
+    cache of create_analysis_input is kept, as in the running server), same document uri and the same version number
+    (a document that is closed and opened again, or opened by a second client, starts from the same version) - has
+    linted `prior` first: the diagnostics of `text` must not depend on that"""
     from openpectus.lsp import lsp_analysis
-    if use_pylsp_document:
-        from pylsp.workspace import Document, Workspace
-        doc = Document(uri="file://verif/c19", workspace=Workspace(root_uri="", endpoint=None, config=None), source=text)
-    else:
-        doc = _Doc(text)
+
+    def mk(source):
+        if use_pylsp_document:
+            from pylsp.workspace import Document, Workspace
+            return Document(uri="file://verif/c19", workspace=Workspace(root_uri="", endpoint=None, config=None),
+                            source=source, version=(1 if prior is not None else None))
+        return _Doc(source)
+
     saved = lsp_analysis.fetch_uod_info
     lsp_analysis.fetch_uod_info = lambda _engine_id: uod
     lsp_analysis.create_analysis_input.cache_clear()
     try:
-        return lsp_analysis.lint(doc, "verif-c19")
+        if prior is not None:
+            try:
+                lsp_analysis.lint(mk(prior), "verif-c19")
+            except Exception:
+                pass  # the prior text is judged as a case of its own elsewhere
+        return lsp_analysis.lint(mk(text), "verif-c19")
     finally:
         lsp_analysis.fetch_uod_info = saved
         lsp_analysis.create_analysis_input.cache_clear()
@@ -341,7 +353,8 @@ def observe(case):
 
     # (3) lint
     try:
-        obs["diags"] = _lint(uod, text, bool(case.get("pylsp_document")))
+        prior = case.get("prior")
+        obs["diags"] = _lint(uod, text, bool(case.get("pylsp_document")), None if prior is None else "\n".join(prior))
     except Exception as e:
         obs["lint_raised"] = (type(e).__name__, "%s: %s" % (type(e).__name__, e))
         obs["diags"] = None
@@ -828,6 +841,11 @@ def cases(draw, max_lines, max_depth):
     case = {"tags": tags, "commands": cmds, "system": system, "lines": g.lines}
     if D.integers(0, 19) == 0:
         case["pylsp_document"] = True
+    if D.integers(0, 3) == 0:
+        # the same document (uri, version) of the same engine was linted before with another text
+        k = D.integers(0, 3)
+        case["prior"] = ([] if k == 0 else ["Mark: a"] if k == 1 else list(reversed(g.lines)) if k == 2
+                         else [l for l in g.lines if D.booleans()])
     return case, {"kinds": g.kinds, "excluded": g.excluded, "excluded_macro": g.excluded_macro, "free": free, "system_mode": mode}
 
 
@@ -849,6 +867,8 @@ def classify(case, meta, derived):
         cl.add("judged:" + (c if c.startswith("unjudged") else c + ":" + d["sim"]))
     depth = max((len(l) - len(l.lstrip(" "))) // 4 for l in case["lines"]) if case["lines"] else 0
     cl.add("depth:%d" % min(depth, 4))
+    if case.get("prior") is not None:
+        cl.add("lint:after-another-text-of-the-same-document-version")
     cl.add("lines:%s" % ("1-5" if len(case["lines"]) <= 5 else "6-15" if len(case["lines"]) <= 15 else "16+"))
     return sorted(cl)
 
@@ -900,6 +920,12 @@ def shrink_hints(case):
         c = dict(case)
         del c["pylsp_document"]
         yield c
+    if case.get("prior") is not None:
+        c = dict(case)
+        del c["prior"]
+        yield c
+        if case["prior"]:
+            yield dict(case, prior=[])
     if len(case["system"]) > 0:
         yield dict(case, system=[])
     for t in case["tags"]:
